@@ -208,7 +208,8 @@ def shrink(exes, P_text, entries, args, work, always, kind, budget=60):
         return not (nxt and nxt[0] in OVF_BR)
     tries = 0
     i = 0
-    while i < len(lines) and tries < budget:
+    deadline = time.time() + (45 if budget <= 40 else 240)
+    while i < len(lines) and tries < budget and time.time() < deadline:
         if removable(lines, i):
             cand = lines[:i] + lines[i + 1:]
             tries += 1
@@ -283,6 +284,113 @@ def corpus_stage(ck, exes, work, always):
                               f"library build '{bad['build']}' {bad['library'][:2]} for {bad['call'][0]}({', '.join(bad['call'][2])})",
                          signature=meta.get("signature"))
     return n
+
+
+# ------------------------------------------------------------------ branch-over-jump grid (every branch code)
+INT_GRID = [0, 1, 2, (1 << 64) - 1, (1 << 31) - 1, 1 << 31, (1 << 32) - 1, 1 << 32, (1 << 63) - 1, 1 << 63,
+            (1 << 64) - (1 << 31), 5]
+NAN = 0x7ff8000000000000
+DBL_GRID = [NAN, NAN | (1 << 63), 0x7ff0000000000000, 0xfff0000000000000, 0, 1 << 63, 0x3ff0000000000000,
+            0xbff0000000000000, 0x4004000000000000, 0x7e37e43c8800759c, 0x3ff0000000000001]
+CMPF = {"EQ": lambda a, b: a == b, "NE": lambda a, b: a != b, "LT": lambda a, b: a < b, "LE": lambda a, b: a <= b,
+        "GT": lambda a, b: a > b, "GE": lambda a, b: a >= b}
+
+
+def branch_taken(code, a, b):
+    """MIR.md: is the branch `code L, a, b` taken?  a, b are 64-bit patterns"""
+    import struct
+    if code[0] in "FD" and code[1] == "B":
+        x, y = (struct.unpack("<d", struct.pack("<Q", v))[0] for v in (a, b))
+        if code[0] == "F":
+            def f32(v):
+                try:
+                    return struct.unpack("<f", struct.pack("<f", v))[0]
+                except OverflowError:
+                    return float("inf") if v > 0 else float("-inf")
+            x, y = f32(x), f32(y)
+        return CMPF[code[2:]](x, y)
+    short = code.endswith("S")
+    c = code[:-1] if short else code
+    if c in ("BT", "BF"):
+        v = a & 0xffffffff if short else a
+        return (v != 0) == (c == "BT")
+    if c in ("BO", "BNO", "UBO", "UBNO"):      # after `addo t, a, b`
+        sa, sb = a - (1 << 64) if a >> 63 else a, b - (1 << 64) if b >> 63 else b
+        ov = (a + b >= 1 << 64) if c.startswith("U") else not (-(1 << 63) <= sa + sb < (1 << 63))
+        return ov == (c in ("BO", "UBO"))
+    uns = c.startswith("U")
+    c = c[1:] if uns else c
+    w = 32 if short else 64
+    x, y = a & ((1 << w) - 1), b & ((1 << w) - 1)
+    if not uns:
+        x, y = (v - (1 << w) if v >> (w - 1) else v for v in (x, y))
+    return CMPF[c[1:]](x, y)
+
+
+def branch_grid_stage(ck, exe, work):
+    """`BCond L1, a, b; JMP L2; L1: ret 1; L2: ret 2` (the shape simplify_func rewrites with the reversed
+    branch) for every row of MIR_reverse_branch_code in the current tree and every integer / float /
+    double branch of MIR.md, over boundary integers and NaN/inf/-0 doubles, linked and run for real."""
+    sys.path.insert(0, os.path.join(VERIF, "translate"))
+    import c04_tables
+    try:
+        rows = [c for c, _ in c04_tables.extract(open(os.path.join(REPO, "mir.c")).read())["rev"]]
+    except SystemExit:
+        rows = []
+    codes = []
+    for c in rows + [p + "B" + k for p in "FD" for k in CMPF] + \
+            [u + "B" + k + s_ for k in CMPF for u in ("", "U") for s_ in ("", "S") if not (u and k in ("EQ", "NE"))] + \
+            ["BT", "BTS", "BF", "BFS", "BO", "BNO", "UBO", "UBNO"]:
+        if c not in codes and not c.startswith(("PR", "LD")):
+            codes.append(c)
+    funcs, plan, expect = [], [], []
+    for c in codes:
+        fn = "rb_" + c.lower()
+        op = c.lower()
+        fp = c[0] in "FD" and c[1] == "B"
+        one = c.rstrip("S") in ("BT", "BF")
+        ovf = c in ("BO", "BNO", "UBO", "UBNO")
+        if fp and c[0] == "F":
+            body = f"  local f:fa, f:fb\n  d2f fa, a\n  d2f fb, b\n  {op} {fn}_L1, fa, fb\n"
+        elif ovf:
+            body = f"  local i64:t\n  addo t, a, b\n  {op} {fn}_L1\n"
+        elif one:
+            body = f"  {op} {fn}_L1, a\n"
+        else:
+            body = f"  {op} {fn}_L1, a, b\n"
+        ty = "d" if fp else "i64"
+        funcs.append(f"{fn}: func i64, {ty}:a, {ty}:b\n{body}  jmp {fn}_L2\n{fn}_L1:\n  ret 1\n{fn}_L2:\n  ret 2\n  endfunc\n")
+        grid = DBL_GRID if fp else INT_GRID
+        for a in grid:
+            for b in grid:
+                plan.append(f"call {fn} {'dd_i' if fp else 'ii_i'} {a:x} {b:x}")
+                expect.append((c, a, b, 1 if branch_taken(c, a, b) else 2))
+    text = "rbm: module\nexport " + ", ".join("rb_" + c.lower() for c in codes) + "\n" + "".join(funcs) + "endmodule\n"
+    obs = engine_obs(exe, ENGINES, text, "\n".join(plan) + "\n", work, "rbgrid", timeout=300)
+    bad = []
+    if len(obs) != len(plan):
+        bad.append(("<all>", 0, 0, "?", view(obs[0] if obs else None, False)))
+    else:
+        for (c, a, b, e), o in zip(expect, obs):
+            v = view(o, False)
+            if v[0] != f"{e:x}":
+                bad.append((c, a, b, e, v))
+    seen = set()
+    for c, a, b, e, v in bad:
+        if c in seen:
+            continue
+        seen.add(c)
+        fn = "rb_" + c.lower()
+        ft = [f for f in funcs if f.startswith(fn + ":")]
+        ck.violation({"stage": "branch-grid", "mir": "rbm: module\nexport " + fn + "\n" + "".join(ft) + "endmodule\n",
+                      "calls": [[fn, "dd_i" if c[0] in "FD" and c[1] == "B" else "ii_i", [f"{a:x}", f"{b:x}"]]],
+                      "model_output": e, "impl_output": list(v), "failing_points_of_this_code": sum(1 for x in bad if x[0] == c),
+                      "how_to_rerun": "./check C04 --replay <this file>"},
+                     what=f"branch-over-jump shape with {c}: `{c.lower()} L1,a,b; jmp L2; L1: ret 1; L2: ret 2` for a={a:#x} b={b:#x}: "
+                          f"MIR.md says {e}, the linked program returns {v} (engines {ENGINES})")
+        if len(seen) >= 4:
+            break
+    return len(plan) * len(ENGINES), codes
 
 
 def inlined_census(lower_exe, P, sizes, work, tag):
@@ -361,14 +469,20 @@ def replay(ck, exes, work, always):
         sig = meta.get("signature")
     else:
         rep = json.load(open(path))
+        rep = rep.get("input", rep) if "mir" not in rep else rep
         text = rep["mir"]
         calls = rep.get("calls")
         entries, args = rep.get("entries"), rep.get("args")
-    tp = c04_gen.TextProg(text)
-    lt = c04_gen.to_lean(tp)
+    try:
+        lt = c04_gen.to_lean(c04_gen.TextProg(text))
+    except Exception:
+        lt = None
     if calls:
         plan = "".join(f"call {f} {sig} {' '.join(a)}\n" for f, sig, a in calls)
-        core = core_obs(lt, [f"ecall {f} {' '.join(a)}" for f, sig, a in calls])
+        if lt is None or rep.get("stage") == "branch-grid":     # oracle = the documented branch condition
+            core = [{"res": f"{rep['model_output']:x}", "same": True}]
+        else:
+            core = core_obs(lt, [f"ecall {f} {' '.join(a)}" for f, sig, a in calls])
         rows = {b: engine_obs(exe, ENGINES, text, plan, work, "rep_" + b, timeout=60) for b, exe in exes.items()}
         bad = [(b, k) for b, o in rows.items() for k in range(len(calls))
                if (view(o[k], False) if len(o) == len(calls) else view(o[0] if o else None, False)) != view(core[k] if k < len(core) else None, False)]
@@ -391,6 +505,8 @@ def body(ck, quick, exes, lower_exe, work, always):
     # ---- corpus (known findings and repaired defects)
     ncorp = corpus_stage(ck, exes, work, always)
     ck.stage("corpus", evaluations=ncorp)
+    ngrid, grid_codes = branch_grid_stage(ck, exes["norm"], work)
+    ck.stage("branch-grid", evaluations=ngrid, codes=len(grid_codes))
     # ---- (a) unit level
     nunit = 5000 if quick else 100000
     diffs, nfun, kinds = unit_stage(ck, lower_exe, work, nunit, always)
@@ -472,7 +588,7 @@ def body(ck, quick, exes, lower_exe, work, always):
                          what=(f"program {f['entry']} args {[hex(a) if isinstance(a, int) else a for a in f['args'][:4]]}: "
                                + "; ".join(f"{b}={v[:2]}" for b, v in f["views"].items()))[:600])
             reported += 1
-    ck.cov["evaluations"] = nev + ncorp + nfun
+    ck.cov["evaluations"] = nev + ncorp + nfun + ngrid
     ck.cov["distinct_nontrivial"] = nprog + nfun
     ck.cov["programs"] = nprog
     ck.cov["unit_functions"] = nfun
@@ -483,7 +599,7 @@ def body(ck, quick, exes, lower_exe, work, always):
                       f"{len(mirgen.ARGSETS)} argument sets through builds {list(BUILDS)} x engines {ENGINES}, MirCore as written and MirCore on the "
                       "model-simplified program; results, the 576-byte buffer and the external-call log are compared")
     ck.cov["distribution"] = {"unit_function_kinds": kinds, "c04_program_features": feat, "rewrite_shape_snippets": shapes, "mirgen_constructs": gstats,
-                              "programs_with_mircore_oracle": ncore, "corpus_evaluations": ncorp,
+                              "programs_with_mircore_oracle": ncore, "corpus_evaluations": ncorp, "branch_grid": {"codes": grid_codes, "evaluations": ngrid},
                               "threshold_census_default_build (callee size -> [`call` sites, `inline` sites, calls left after link])": census,
                               "failure_classes": len(classes), "round_always_variant": always}
     P, es = c04_gen.gen_c04_program(ck.rng, "sample")
